@@ -22,7 +22,7 @@ ASSUMPTIONS = [
     "CORS is not given all-zero losses (its normalisation divides by max|loss|)",
 ]
 REQUIRED_COUNTERS = {f"batches_{k}": 20 for k in G.SAMPLER_KINDS}
-REQUIRED_COUNTERS.update({"spaces_with_integer_typed_bounds": 30, "swarm_restarts_on_empty_history": 3, "cors_runs_beyond_max_samples": 1, "spaces_with_equal_length_axes": 20, "spaces_with_a_million_point_axis": 5, "bestbatch_history_shorter_than_batch": 3, "nonaligned_spaces": 50, "multi_call_objects": 50, "second_space_calls": 60, "second_space_of_another_dimension": 40})
+REQUIRED_COUNTERS.update({"spaces_with_integer_typed_bounds": 30, "swarm_restarts_on_empty_history": 3, "cors_runs_beyond_max_samples": 1, "spaces_with_equal_length_axes": 20, "spaces_with_a_million_point_axis": 5, "bestbatch_history_shorter_than_batch": 3, "nonaligned_spaces": 50, "multi_call_objects": 50, "second_space_calls": 60, "spaces_with_nearly_equal_axes_far_from_the_origin": 30, "second_space_of_another_dimension": 40})
 SHARDS = {"quick": 16, "thorough": 16}
 SHARD_WATCHDOG = {"quick": 1500, "thorough": 10800}
 
@@ -43,6 +43,16 @@ def run_case(desc, ctx):
         if rng.random() < 0.12:
             sd = G.gen_int_bounds_space(rng, int(rng.integers(1, 4)))
             c["spaces_with_integer_typed_bounds"] = c.get("spaces_with_integer_typed_bounds", 0) + 1
+        if rng.random() < 0.1:
+            # parameters far from the origin whose grids have the same length and differ by a fraction of a step (time stamps, levels):
+            # nearly equal grids are still different grids
+            d_ = int(rng.integers(2, 4)) if slow else int(rng.integers(2, 5))
+            p_ = float(rng.choice([0.01, 0.7, 60.0, 1.0, 0.125]))
+            n_ = int(rng.integers(3, 60))
+            lo0 = p_ * float(rng.choice([1e5, 1e6, 1e7, -1e6, 2.5e6])) * float(rng.integers(1, 40))
+            shifts = [0.0] + [float(rng.choice([0.5, 0.35, 0.25, -0.4, 0.5])) * p_ for _ in range(d_ - 1)]
+            sd = {"bounds": [[lo0 + sh for sh in shifts], [lo0 + sh + n_ * p_ for sh in shifts]], "precision": [p_] * d_}
+            c["spaces_with_nearly_equal_axes_far_from_the_origin"] = c.get("spaces_with_nearly_equal_axes_far_from_the_origin", 0) + 1
         space = G.build_space(sd)
         smp = G.gen_sampler_desc(rng, kind)
         if "pool" in smp and rng.random() < 0.1:
